@@ -427,17 +427,21 @@ def apply_repo(w, e, fi, clsbind, args, kwargs, s, closure=None):
                 conds = conds | p.value.conds
                 if s.holds(("ok", callterm)):
                     continue
-            sconds = [subst(c, pmap) for c in conds]
+            sconds = [subst(_retag(c, ("@", site[1], site[2])), pmap) for c in conds]
             if any(s.contradicts(c) for c in sconds):
                 continue
             s1 = s.copy()
+            tag0 = ("@", site[1], site[2])
             for c in sm.path_facts[id(p)]:
-                s1.add(subst(c, pmap))
+                s1.add(subst(_retag(c, tag0), pmap))
             # the path's own facts together with what the caller knows (e.g. a membership the callee
             # tested, instantiating a forall fact of the caller) may refute one of its conditions
             if any(s1.contradicts(c) for c in sconds):
                 continue
-            evs_sub = subst(p.events, pmap)
+            # displays created by the callee are new objects on every call: their identity is
+            # extended by the call site, so that two calls do not appear to return the same object
+            tag = ("@", site[1], site[2])
+            evs_sub = subst(_retag(p.events, tag), pmap)
             s1.ev("inlined", site, callee, evs_sub)
             _replay_heap(s1, evs_sub)
             if p.kind == "raise":
@@ -447,7 +451,7 @@ def apply_repo(w, e, fi, clsbind, args, kwargs, s, closure=None):
                 keep = [c2 for c2 in (subst(c, pmap) for c in conds) if is_param_rooted(c2)]
                 outs.append((s1, "raise", Exc(x.exc, (site,) + x.chain, [("notok", callterm)] + keep, x.origin, x.why)))
             else:
-                v = subst(p.value, pmap) if is_param_rooted(p.value) else callterm
+                v = subst(_retag(p.value, tag), pmap) if is_param_rooted(p.value) else callterm
                 s1.add(("ok", callterm))
                 if is_const(v) and isinstance(v[2], bool):
                     s1.add(("ret", callterm, v[2]))
@@ -473,8 +477,9 @@ def apply_repo(w, e, fi, clsbind, args, kwargs, s, closure=None):
             s1.add(("notok", callterm))
             s1.ev("call", site, callee, argterms, (), ("raise", x.exc))
             outs.append((s1, "raise", Exc(x.exc, (site,) + x.chain, [("notok", callterm)] + [c for c in allc if is_param_rooted(c)], x.origin, x.why)))
+    gtag = ("@", site[1], site[2])
     for rk, g in sm.groups.items():
-        facts = [subst(f, pmap) for f in g["facts"]]
+        facts = [subst(_retag(f, gtag), pmap) for f in g["facts"]]
         if any(s.contradicts(f) for f in facts if f[0] != "imp"):
             continue
         s1 = s.copy()
@@ -486,16 +491,41 @@ def apply_repo(w, e, fi, clsbind, args, kwargs, s, closure=None):
         elif isinstance(rk, tuple) and rk[0] == "param":
             v = mp[rk[1]]
         elif g["value"] is not None:
-            v = subst(g["value"], pmap)
+            v = subst(_retag(g["value"], gtag), pmap)
         else:
             v = callterm
         if g["rettype"] is not None and not is_const(v):
             s1.add(("type", v, g["rettype"]))
         for f in g["retfacts"]:
-            s1.add(subst(f, {**pmap, ("RET",): v}))
+            s1.add(subst(_retag(f, gtag), {**pmap, ("RET",): v}))
         s1.ev("call", site, callee, argterms, (), ("ok", v))
         outs.append((s1, "val", v))
     return outs
+
+
+def _retag(t, tag, _argside=None):
+    """extend the identity (site) of every display created inside a callee by the call site"""
+    tt = type(t)
+    if tt is tuple:
+        if len(t) == 4 and t[0] == "lit" and t[3] is not None and isinstance(t[3], tuple) and t[1] in ("dict", "list", "set"):
+            items = tuple(_retag(x, tag) for x in t[2])
+            return ("lit", t[1], items, tuple(t[3]) + tag + ("@cs",))
+        changed = False
+        out = []
+        for x in t:
+            tx = type(x)
+            if tx is tuple or tx is frozenset:
+                y = _retag(x, tag)
+                if y is not x:
+                    changed = True
+                out.append(y)
+            else:
+                out.append(x)
+        return tuple(out) if changed else t
+    if tt is frozenset:
+        out = frozenset(_retag(x, tag) for x in t)
+        return t if out == t else out
+    return t
 
 
 def _replay_heap(s, events):
